@@ -20,7 +20,7 @@ type TextTemplater struct {
 
 func (t *TextTemplater) Apply(parts *gun.RequestParts, vs map[string]any, scenarioName, stepName string) error {
 	const op = "scenario/TextTemplater.Apply"
-	tmpl, err := t.getTemplate(parts.URL, scenarioName, stepName, "url")
+	tmpl, err := t.getTemplate(parts.URL, templateKey{scenario: scenarioName, step: stepName, part: partURL})
 	if err != nil {
 		return fmt.Errorf("%s, template.New, %w", op, err)
 	}
@@ -34,7 +34,7 @@ func (t *TextTemplater) Apply(parts *gun.RequestParts, vs map[string]any, scenar
 	strBuilder.Reset()
 
 	for k, v := range parts.Headers {
-		tmpl, err = t.getTemplate(v, scenarioName, stepName, k)
+		tmpl, err = t.getTemplate(v, templateKey{scenario: scenarioName, step: stepName, part: partHeader, key: k})
 		if err != nil {
 			return fmt.Errorf("%s, template.Execute Header %s, %w", op, k, err)
 		}
@@ -46,7 +46,7 @@ func (t *TextTemplater) Apply(parts *gun.RequestParts, vs map[string]any, scenar
 		strBuilder.Reset()
 	}
 	if parts.Body != nil {
-		tmpl, err = t.getTemplate(string(parts.Body), scenarioName, stepName, "body")
+		tmpl, err = t.getTemplate(string(parts.Body), templateKey{scenario: scenarioName, step: stepName, part: partBody})
 		if err != nil {
 			return fmt.Errorf("%s, template.Execute body, %w", op, err)
 		}
@@ -60,16 +60,15 @@ func (t *TextTemplater) Apply(parts *gun.RequestParts, vs map[string]any, scenar
 	return nil
 }
 
-func (t *TextTemplater) getTemplate(tmplBody, scenarioName, stepName, key string) (*template.Template, error) {
-	urlKey := fmt.Sprintf("%s_%s_%s", scenarioName, stepName, key)
-	tmpl, ok := t.templatesCache.Load(urlKey)
+func (t *TextTemplater) getTemplate(tmplBody string, key templateKey) (*template.Template, error) {
+	tmpl, ok := t.templatesCache.Load(key)
 	if !ok {
 		var err error
-		tmpl, err = template.New(urlKey).Funcs(templater.GetFuncs()).Parse(tmplBody)
+		tmpl, err = template.New(key.String()).Funcs(templater.GetFuncs()).Parse(tmplBody)
 		if err != nil {
 			return nil, fmt.Errorf("scenario/TextTemplater.Apply, template.New, %w", err)
 		}
-		t.templatesCache.Store(urlKey, tmpl)
+		t.templatesCache.Store(key, tmpl)
 	}
 	return tmpl.(*template.Template), nil
 }
